@@ -103,16 +103,16 @@ From Coq Require Import Permutation.
 Theorem accounting_outside_known_class : forall cap progs sched,
   known_class (CThr cap progs sched) = None ->
   let c := fst (exec_full step site rr_fuel (init_config (N.to_nat cap) progs) (map N.to_nat sched)) in
-  forall d W St, In (d, W, St) (glog (fst c)) ->
+  forall d W St k, In (d, W, St, k) (glog (fst c)) ->
     Permutation St W /\
     d_unsampled d = N.of_nat (length St) /\
     d_len d = N.min (d_unsampled d) cap /\
-    N.of_nat (length (d_vals d)) <= d_len d /\
+    N.of_nat (length (d_vals d)) = takeof k (d_len d) /\
     (forall v, In v (d_vals d) -> In v St) /\
     (d_unsampled d <= cap -> d_vals d = firstn (length (d_vals d)) W) /\
     sample_rate d = (if d_unsampled d <=? cap then (1, 1) else (cap, d_unsampled d)).
 Proof.
-  intros cap progs sched HK c d W St Hin. apply known_class_None_iff in HK.
-  pose proof (accounting_except_late_push_full_run (N.to_nat cap) progs (map N.to_nat sched) rr_fuel HK d W St Hin) as H.
+  intros cap progs sched HK c d W St k Hin. apply known_class_None_iff in HK.
+  pose proof (accounting_except_late_push_full_run (N.to_nat cap) progs (map N.to_nat sched) rr_fuel HK d W St k Hin) as H.
   rewrite N2Nat.id in H. exact H.
 Qed.
